@@ -376,3 +376,11 @@ Proof.
   intros Hn Hw. unfold stranded, started, wakes. replace (Nat.min n 1) with 1%nat by lia.
   replace (Nat.min 1 workers) with 1%nat by lia. assert (E : (1 <? workers)%nat = true) by (apply Nat.ltb_lt; lia). rewrite E. reflexivity.
 Qed.
+
+(* the slot after thread-exit destruction (instances: see exit_shapes) *)
+Lemma exit_raw_pointer_ok : exit_shapes_ok SlotRawPointer = true.
+Proof. vm_compute. reflexivity. Qed.
+Lemma exit_owning_object_refuted : exit_history SlotOwningObject None [1] [2] = None /\ exit_shapes_ok SlotOwningObject = false.
+Proof. split; vm_compute; reflexivity. Qed.
+Lemma exit_no_drain_any_slot k pending before : exit_history k pending before [] = Some (thread_events exec_range_fixed true pending before).
+Proof. reflexivity. Qed.
